@@ -2,7 +2,7 @@
 from mats import *
 
 RULE = ("seeded random integer matrices x integer points arrays of dimension 1, 2 and 3 (points inside, on facets of, and "
-        "outside the polyhedron; groups of 1-4 points; stacks of 1-3 groups; 35% with narrow integer dtypes (int8/int16/int32/uint8) for the polyhedron and / or the points, coefficients scaled so that entries fit but row sums may not); ineqs_satisfied / separable / "
+        "outside the polyhedron; groups of 1-4 points; stacks of 1-3 groups; a few matrices with 4097-12290 points; 35% with narrow integer dtypes (int8/int16/int32/uint8) for the polyhedron and / or the points, coefficients scaled so that entries fit but row sums may not); ineqs_satisfied / separable / "
         "ineq_separate_points compared with the model including nesting shape and scalar-vs-array; oracle: direct A x >= b "
         "with Python ints; non-trivial = at least one point violates some but not all rows or lies on a facet")
 ASSUMPTIONS = ["at least one row and one column"]
@@ -26,7 +26,7 @@ def do_case(ctx, inp):
     def viol(x): return [dot(cs, x) < b for b, cs in p["rows"]]
     vs = [viol(x) for x in flat]
     facet = any(dot(cs, x) == b for x in flat for b, cs in p["rows"])
-    ctx.case(inp, nontrivial=facet or any(any(v) and not all(v) for v in vs), tags={f"ndim-{d}", "poly-dtype-" + str(inp.get("pdtype", "int64")), "points-dtype-" + str(inp.get("xdtype", "int64"))}
+    ctx.case(inp, nontrivial=facet or any(any(v) and not all(v) for v in vs), tags=({"thousands-of-points"} if inp.get("big") else set()) | {f"ndim-{d}", "poly-dtype-" + str(inp.get("pdtype", "int64")), "points-dtype-" + str(inp.get("xdtype", "int64"))}
              | ({"facet-point"} if facet else set())
              | ({"row-sum-exceeds-narrow-dtype"} if inp.get("pdtype") in ("int8", "int16") and any(abs(dot(cs, x)) > (127 if inp["pdtype"] == "int8" else 32767) for x in flat for _, cs in p["rows"]) else set()))
     ctx.op({"op": "classify", "p": p, "d": d, "pts": pts}, {"sat": sat, "sep": sep, "rowsep": rowsep})
@@ -52,7 +52,23 @@ def gen_point(rng, p):
     return x
 
 
+def big_case(rng):
+    """a points matrix (or a stack) with thousands of points: anything that evaluates points in blocks must also
+    get the last block right"""
+    p = gen_poly(rng, True, max_rows=2, max_cols=2)
+    npts = rng.choice([4097, 8193, 12289, 12290, 8192 + rng.randint(1, 40)])
+    pts = [gen_point(rng, p) for _ in range(npts)]
+    # make the tail decisive: alternate inside / outside points at the very end
+    for k in range(1, 4):
+        pts[-k] = [b[0] - 1 if k % 2 else b[0] for b in p["bnds"]] if rng.random() < 0.5 else gen_point(rng, p)
+    if rng.random() < 0.3:
+        return {"p": p, "d": 3, "pts": [pts, pts[::-1]], "big": True}
+    return {"p": p, "d": 2, "pts": pts, "big": True}
+
+
 def run(ctx):
+    for _ in range(3 if ctx.quick else 12):
+        do_case(ctx, big_case(ctx.rng))
     n = (1200 if ctx.quick else 12000) * (3 if ctx.search else 1)
     for _ in range(n):
         p = gen_poly(ctx.rng, ctx.quick)
